@@ -7,6 +7,7 @@ import (
 	"os"
 	"regexp"
 	"runtime"
+	"sort"
 	"strconv"
 	"strings"
 	"sync"
@@ -53,6 +54,45 @@ func (*detEngine) Decode(raw []byte) (any, error) {
 }
 
 // --------------------------------------------------------------- generator
+
+// callable names of the language and library packages, gathered once from a
+// real runtime (sorted, so that generation is deterministic).
+var detCallables []string
+
+func callables() []string {
+	if detCallables != nil {
+		return detCallables
+	}
+	w, err := NewWorld(Knobs{Stdlib: true})
+	if err != nil {
+		return nil
+	}
+	skip := map[string]bool{"load-file": true, "load-string": true, "load-bytes": true, "debug-stack": false, "in-package": true, "use-package": true,
+		"export": true, "set": true, "defun": true, "defmacro": true, "deftype": true, "defconst": true, "rethrow": true, "eval": true, "gensym": false}
+	for _, pkg := range []string{"lisp", "json", "string", "math", "regexp", "base64", "s", "elpspath", "golang", "help"} {
+		p := w.RT.Registry.Package(pkg)
+		if p == nil {
+			continue
+		}
+		names := p.Externals()
+		sort.Strings(names)
+		for _, n := range names {
+			if skip[n] {
+				continue
+			}
+			v, ok := p.Symbol(n)
+			if !ok || v.Type != lisp.LFun || v.IsSpecialFun() {
+				continue
+			}
+			if pkg == "lisp" {
+				detCallables = append(detCallables, n)
+			} else {
+				detCallables = append(detCallables, pkg+":"+n)
+			}
+		}
+	}
+	return detCallables
+}
 
 type detGen struct {
 	r   *Rand
@@ -206,7 +246,31 @@ func (g *detGen) observe(v *Node) *Node {
 }
 
 func (g *detGen) form() *Node {
-	switch g.r.Pick([]int{10, 3, 2, 2, 2, 2, 1, 2, 3, 2, 2, 2, 3, 3, 1}) {
+	switch g.r.Pick([]int{10, 3, 2, 2, 2, 2, 1, 2, 3, 2, 2, 2, 3, 3, 1, 8}) {
+	case 15:
+		// any exported function of the language or a library, applied to generated
+		// arguments: most such calls are refused, and the refusal's message renders
+		// the arguments
+		cs := callables()
+		if len(cs) == 0 {
+			return g.scalar()
+		}
+		xs := []*Node{A(cs[g.r.Intn(len(cs))])}
+		for i := g.r.Range(0, 3); i > 0; i-- {
+			switch g.r.Intn(6) {
+			case 0:
+				xs = append(xs, g.mapExpr(0))
+			case 1:
+				xs = append(xs, g.closure())
+			case 2:
+				xs = append(xs, Call("vector", g.scalar(), g.mapExpr(0)))
+			case 3:
+				xs = append(xs, QS(PickStr(g.r, []string{"list", "vector", "k01", "bytes"})))
+			default:
+				xs = append(xs, g.scalar())
+			}
+		}
+		return L(xs...)
 	case 12:
 		// expr lambdas with numbered placeholders (their formals are built at evaluation time)
 		k := g.r.Range(1, 6)
